@@ -316,7 +316,10 @@ func checkUnpack(c msgCase) error {
 // read-only operations leave their arguments unchanged
 
 func checkReadOnly(c msgCase) error {
+	// (values as a program holds them: whole client-subnet addresses, 16-octet IPv4, respelled names)
+	restore := wm.Spelling(uint64(c.M.ID)*2654435761 + uint64(c.Odd))
 	lib, err := wm.MsgToLib(c.M, true)
+	restore()
 	if err != nil {
 		return nil
 	}
